@@ -30,6 +30,9 @@ pub enum Op {
     Kill { k: u8 },
     /// both ends of real client k's connection ask to disconnect at the same instant (the requests cross)
     CrossDisconnect { k: u8, now_client: bool, now_server: bool },
+    /// the server application submits a Reliable packet to real client k and asks for a graceful disconnect right away
+    /// (the connection stays established until the packet is acknowledged - or the peer is given up)
+    ServerSendThenDisconnect { k: u8, size: u16 },
 }
 
 #[derive(Clone, Debug, Serialize, Deserialize)]
@@ -74,6 +77,7 @@ impl Check for C17 {
             1 => any::<u8>().prop_map(|k| Op::ServerDrop { k }),
             1 => any::<u8>().prop_map(|k| Op::Kill { k }),
             2 => (any::<u8>(), any::<bool>(), any::<bool>()).prop_map(|(k, now_client, now_server)| Op::CrossDisconnect { k, now_client, now_server }),
+            2 => (any::<u8>(), prop_oneof![5u16..200, 200u16..5000]).prop_map(|(k, size)| Op::ServerSendThenDisconnect { k, size }),
         ];
         (any::<u64>(), 1u8..7, 1u8..9, prop_oneof![2 => Just(2000u32), 2 => Just(5000u32), 3 => Just(20000u32), 1 => Just(60_000u32), 1 => Just(600_000u32)], any::<bool>(), proptest::collection::vec(op, 4..tier.pick(120, 400)), prop_oneof![1 => Just(true), 2 => Just(false)])
             .prop_map(|(seed, max_active, max_total, timeout_ms, handshake_errors, ops, check_recovery)| Case { seed, max_active, max_total, timeout_ms, handshake_errors, ops, check_recovery })
@@ -89,7 +93,7 @@ impl Check for C17 {
     }
 
     fn rule(&self) -> String {
-        "case = World with a Server whose max_active_connections is 1..6 and max_total_connections 1..8 (either may bind first), enable_handshake_errors on or off, and a generated script: real Clients started at arbitrary moments on links with latency 0..300 ms (many SYNs before any ACK: overlapping handshakes), raw peers (a few addresses that come back again and again) that send a valid SYN and never answer, answer later, or disconnect gracefully and reconnect, client / server disconnect() and disconnect_now(), Server::drop, clients silenced until the server times them out, ticks of 0..25 s; optionally every established connection is then dropped, every client silenced and, after 25 s (the 20 s linger, the 22 s handshake budget of abandoned attempts), a fresh client is offered. Oracle after every server step: addresses between Connect and their terminal event (or drop) that the server still reports as active (not closing) number <= max_active_connections; addresses the server still tracks (Server::client() returns them) and whose connection has not ended number <= max_total_connections; a connection that was reported and neither ended nor dropped is still returned by Server::client(); every refusal of a compatible request is HandshakeError(ServerFull) and the real client reports Error(ServerFull); the fresh client offered after everything ended connects within 5 s. Non-trivial = more clients were offered than a limit admits and at least two handshakes overlapped. Distinct = distinct serialised case.".into()
+        "case = World with a Server whose max_active_connections is 1..6 and max_total_connections 1..8 (either may bind first), enable_handshake_errors on or off, and a generated script: real Clients started at arbitrary moments on links with latency 0..300 ms (many SYNs before any ACK: overlapping handshakes), raw peers (a few addresses that come back again and again) that send a valid SYN and never answer, answer later, or disconnect gracefully and reconnect, client / server disconnect() and disconnect_now(), a Reliable packet followed at once by a graceful disconnect() from the server side (also towards a silenced client), Server::drop, clients silenced until the server times them out, ticks of 0..25 s; optionally every established connection is then dropped, every client silenced and, after 25 s (the 20 s linger, the 22 s handshake budget of abandoned attempts), a fresh client is offered. Oracle after every server step: addresses between Connect and their terminal event (or drop) that the server still reports as active (not closing) number <= max_active_connections; addresses the server still tracks (Server::client() returns them) and whose connection has not ended number <= max_total_connections; a connection that was reported and neither ended nor dropped is still returned by Server::client(); every refusal of a compatible request is HandshakeError(ServerFull) and the real client reports Error(ServerFull); the fresh client offered after everything ended connects within 5 s. Non-trivial = more clients were offered than a limit admits and at least two handshakes overlapped. Distinct = distinct serialised case.".into()
     }
 
     fn assumptions(&self) -> Vec<String> {
@@ -336,6 +340,21 @@ impl Check for C17 {
                                     rc.borrow_mut().disconnect_now()
                                 } else {
                                     rc.borrow_mut().disconnect()
+                                }
+                            }
+                        }
+                    }
+                }
+                Op::ServerSendThenDisconnect { k, size } => {
+                    if !real.is_empty() {
+                        let ci = real[*k as usize % real.len()];
+                        let a = w.clients[ci].addr;
+                        if w.server_client_active(&a) {
+                            if let Some(server) = w.server.as_ref() {
+                                if let Some(rc) = server.client(&a) {
+                                    rc.borrow_mut().send(vec![9u8; *size as usize].into_boxed_slice(), 0, uflow::SendMode::Reliable);
+                                    rc.borrow_mut().disconnect();
+                                    classes.push("server_send_then_graceful_disconnect");
                                 }
                             }
                         }
